@@ -24,7 +24,7 @@ RULE = ("case = (simulator in {direct Levy process, 1-d chain, copula chain, 1-d
 ASSUMPTIONS = ["jump counts are scripted (Poisson.sample replaced), everything else is recorded, not replaced",
                "copulas: finite-variation margins; grids of at most 9 points per axis"]
 REQUIRED_COUNTERS = ["paths_checked", "fixed_date_paths", "jump_time_paths", "max_step_paths", "multi_date_paths",
-                     "finer_grid_direct_calls", "coupled_paths", "paths_without_jump", "coarse_component_checks"]
+                     "finer_grid_direct_calls", "coupled_paths", "paths_without_jump", "coarse_component_checks", "nd_diffusion_running_sums_nonzero_matrix"]
 MIN_NONTRIVIAL = {"quick": 60, "thorough": 800}
 THOROUGH_ROUNDS = 20      # the thorough tier runs the generators this many times (different seeds)
 SHARD_TIMEOUT = {"quick": 900, "thorough": 7200}
@@ -462,6 +462,22 @@ def _judge(R, case, wit, sim, mode, dates, T, eps, path, rec, prod_times, target
                 if not np.allclose(gd, wantd, rtol=1e-10, atol=1e-12):
                     R.violation(f"{tag}-diffusion-not-running-sum", f"diffusion path {gd.tolist()[:4]} vs cumulated scaled normals {wantd.tolist()[:4]}", wit)
                     return False
+    # diffusion of the (uncoupled) copula chain in the jump-time modes: normals drawn for this path, a (dim, steps) block
+    if dim > 1 and not coupled and mode != "fixed" and rec.normals:
+        w = np.asarray(rec.normals[-1], dtype=float).reshape(-1)
+        if w.size == dim * (n - 1):
+            D = np.asarray(target._path_simulation.diffusion_matrix, dtype=float)
+            wantd = np.cumsum(np.sqrt(np.diff(times)) * (D @ w.reshape(dim, n - 1)), axis=1)
+            R.hit("nd_diffusion_running_sums")
+            if np.any(D != 0):
+                R.hit("nd_diffusion_running_sums_nonzero_matrix")
+            if not np.allclose(dp[:, 1:], wantd, rtol=1e-10, atol=1e-12):
+                i = int(np.argmax(np.max(np.abs(dp[:, 1:] - wantd), axis=0)))
+                R.violation(f"{tag}-nd-diffusion-not-running-sum", f"{sim} {mode} mode: diffusion component {dp[:, i + 1].tolist()} at time index {i + 1}, cumulated "
+                            f"scaled correlated normals {wantd[:, i].tolist()} ({n - 1} steps)", wit)
+                return False
+        else:
+            R.skip("nd-normals-do-not-match-the-steps")
     if coupled and not _judge_coarse(R, wit, tag, sim, mode, dates, T, times, jp[1], rec, prod_times, dim):
         return False
     if n_jumps:
